@@ -155,7 +155,8 @@ ChanEndViol(sh) ==
   \* consumed while the sender is not yet waiting; nothing wakes the loop again (own clause = fingerprint)
   CIf(sh.stuck /\ sh.cap = 0, {<<"C04", "rendezvous_send_never_completed">>})
   \cup CIf(sh.stuck /\ sh.cap # 0, {<<"C04", "blocking_send_never_completed">>})
-  \cup CIf(~sh.stuck /\ sh.sentOk \ del # {}, {<<"C04", "message_stranded">>})
+  \* (C02: a queued message on an inserted, enabled channel is a pending cause that no dispatch delivered)
+  \cup CIf(~sh.stuck /\ sh.sentOk \ del # {}, {<<"C04", "message_stranded">>, <<"C02", "pending_cause_not_dispatched">>})
   \cup CIf(~sh.stuck /\ sh.handles = 0 /\ sh.closedCount # 1, {<<"C04", "closed_not_delivered_once">>})
   \cup CIf(sh.handles > 0 /\ sh.closedCount > 0, {<<"C04", "closed_while_senders_alive">>})
   \cup CIf(~sh.stuck /\ sh.handles = 0 /\ sh.occupied > 0, {<<"C04", "channel_not_removed_after_closed">>})
